@@ -165,15 +165,9 @@ def exact_match_used(ctx, rule='C07.exact-match-used'):
             n += 1
             d = t['dest']['l']
             # locals that receive the flag
-            flags = set()
-            for b2 in fn.reachable_blocks():
-                for st in fn.blocks[b2]['stmts']:
-                    if st['k'] == 'assign' and st['rv']['k'] in ('use', 'un') :
-                        o = st['rv'].get('op') if st['rv']['k'] == 'use' else st['rv'].get('a')
-                        pl = op_place(o) if isinstance(o, dict) else None
-                        if pl is not None and pl['l'] == d and pl['pr'] and pl['pr'][0]['k'] == 'field' and pl['pr'][0].get('i', pl['pr'][0].get('name')) in (0, '0'):
-                            flags.add(st['p']['l'])
-            used = False
+            from util import search_flag_locals
+            flags = search_flag_locals(fn, t)
+            used = (d == 0)      # `search(..)` as the tail expression: the flag is handed on as this function's own result
             for b2 in sorted(fn.reachable_blocks()):
                 tt = fn.term(b2)
                 ops = []
@@ -197,7 +191,7 @@ def exact_match_used(ctx, rule='C07.exact-match-used'):
                 res.append(bad(rule, '%s | exact-match flag of the search dropped' % fn.qual,
                                '%s calls the tree search at %s and never looks at the exact-match flag it returns: for an absent key the search stops on the neighbouring entry, '
                                'so the caller reads, replaces or deletes the wrong entry' % (fn.qual, fn.loc(bb)), where=fn.loc(bb)))
-    f = floor(rule, 'call sites of the tree search', n, 4)
+    f = floor(rule, 'call sites of the tree search', n, 2)
     if f:
         res.append(f)
     return res
@@ -323,6 +317,14 @@ def position_from_search(ctx, rule='C07.position-from-search'):
             e = du.sym(t['args'][1])
             n += 1
             from_search = c16._tree_has(e, lambda x: x[0] == 'call' and x[1] == sr.path)
+            if not from_search:
+                # the stack is a local that the search filled through a `&mut` parameter in this same function
+                locs_e, _ = du.slice_operand(t['args'][1])
+                for sb, stt, sc in calls_to_fn(F, X, sr):
+                    for a in stt['args']:
+                        pl = op_place(a)
+                        if pl is not None and X.locals[pl['l']]['ty'].startswith('&mut std::vec::Vec<') and (du.slice_local(pl['l'])[0] & locs_e) and X.dominates(sb, bb):
+                            from_search = True
             merged = c16._tree_has(e, lambda x: x[0] == 'phi')
             if from_search and not merged:
                 res.append(ok(rule, '%s: position used at %s comes from the search made in this call' % (fn.qual, X.loc(bb)), sites=1))
